@@ -161,6 +161,20 @@ Theorem C17_readout_guards_are_valid_schedule :
 Proof. apply accepted_is_valid_schedule. vm_compute. reflexivity. Qed.
 Print Assumptions C17_readout_guards_are_valid_schedule.
 
+(* ---- every run goes through Detector.set_readout -> ReadoutProperties.__init__, which has its own copy of
+   the refusals (it is the only gate for a schedule given through the `times` setter of Readout, which does not
+   check monotonicity): on non-empty schedules they too accept exactly valid_schedule *)
+Theorem C17_detector_guards_are_valid_schedule :
+  forall (start t0 : Q) (r : list Q),
+  accepted false detector_readout_guards start (t0 :: r) = valid_schedule start (t0 :: r).
+Proof.
+  intros start t0 r.
+  change (accepted false detector_readout_guards start (t0 :: r))
+    with (accepted true detector_readout_guards start (t0 :: r)).
+  apply accepted_is_valid_schedule. vm_compute. reflexivity.
+Qed.
+Print Assumptions C17_detector_guards_are_valid_schedule.
+
 (* ---- non-vacuity: the table has deterministic rows; a concrete expression of the shape found in load_image
    (ADU -> photon conversion) is linear with the expected rate, and the ways of getting it wrong are rejected:
    the step forgotten in one branch, the clock used instead of the step, the step squared, a floor on the step *)
